@@ -2167,16 +2167,21 @@ class HexBlock(Block):
                 return 3.0
             else:
                 symmetryLine = self.core.spatialGrid.overlapsWhichSymmetryLine(indices)
-                # detect if upper edge assemblies are included. Doing this is the only way to know
-                # definitively whether or not the edge assemblies are half-assems or full.
-                # seeing the first one is the easiest way to detect them.
-                # Check it last in the and statement so we don't waste time doing it.
-                upperEdgeLoc = self.core.spatialGrid[-1, 2, 0]
+                # An assembly on one of the two boundaries is a half assembly exactly when its
+                # periodic partner on the other boundary is modeled as well. Look for that partner
+                # itself: the first position of the upper edge may be empty (holes in the map).
                 if symmetryLine in [
                     grids.BOUNDARY_0_DEGREES,
                     grids.BOUNDARY_120_DEGREES,
-                ] and bool(self.core.childrenByLocator.get(upperEdgeLoc)):
-                    return 2.0
+                ]:
+                    i, j = int(indices[0]), int(indices[1])
+                    if symmetryLine == grids.BOUNDARY_0_DEGREES:
+                        partner = (-i - j, i)  # rotated by 120 degrees
+                    else:
+                        partner = (j, -i - j)  # rotated by 240 degrees
+                    partnerLoc = self.core.spatialGrid[partner[0], partner[1], 0]
+                    if bool(self.core.childrenByLocator.get(partnerLoc)):
+                        return 2.0
         return 1.0
 
     def autoCreateSpatialGrids(self, systemSpatialGrid=None):
